@@ -223,7 +223,54 @@ def check_tree(ctx, case):
                 return
 
 
+def check_inplace(ctx, case):
+    """Printing is a function of the tree as it is NOW: along an in-place rewrite sequence every node is printed before every
+    step (so anything a node remembers about its text is there), and after the step the whole tree must still print text that
+    re-reads as the tree (and as a never-printed copy prints)."""
+    root = E.parse(case["text"])
+    if root is None or X.has_nonfinite(root) or E.has_huge_constant(root):
+        return
+    rules = E.rule_instances()
+    ctx.count("inplace:walks")
+    for ri, ni in case["steps"]:
+        nodes = A.inorder(root)
+        for n in nodes:
+            try:
+                str(n)
+            except Exception:
+                pass
+        name, rule = rules[ri % len(rules)]
+        try:
+            cands = [n for n in nodes if rule.can_apply_to(n)]
+        except Exception:
+            return
+        if not cands:
+            continue
+        n = cands[ni % len(cands)]
+        where = E.text_of(n)
+        arrangement = E.arrangement(rule, n)
+        try:
+            root = E._root(rule.apply_to(n).result)
+        except Exception:
+            ctx.count("skipped:bad-application(C06/C07)")
+            return
+        if A.audit(root) is not None or X.has_nonfinite(root) or E.has_huge_constant(root):
+            ctx.count("skipped:bad-application(C06/C07)")
+            return
+        ctx.count(f"inplace-applied:{name}:{arrangement}")
+        try:
+            fresh_text = str(root.clone())
+        except Exception:
+            fresh_text = None
+        if fresh_text is not None and str(root) != fresh_text:
+            return ctx.fail(("print-depends-on-history", name), case, {"tree_printed": str(root)[:200], "never_printed_copy": fresh_text[:200], "after": f"{name}:{arrangement} at {where} (in place)"})
+        if not check_tree_obj(ctx, root, case, f"after {name}:{arrangement} at {where} (in place)"):
+            return
+
+
 def replay(ctx, case):
+    if "steps" in case:
+        return check_inplace(ctx, case)
     check_tree(ctx, case)
 
 
@@ -249,3 +296,14 @@ def run(ctx):
         check_tree(ctx, {"text": t, "pre": []})
     ctx.info["template_corner_texts"] = f"{len(texts)} texts (template sweep + one-edit neighbours); every {step}th in this tier"
     hyp_run(ctx, "g-tree", G.tree_case(12 if ctx.tier == "quick" else 24, max_pre=6), check_tree, ctx.n(1200, 10000))
+    # in-place sequences, every node printed before every step
+    istep = 8 if ctx.tier == "quick" else 1
+    for i, t in enumerate(texts):
+        if i % istep != ctx.seed % istep or (i // istep) % ctx.nshards != ctx.shard:
+            continue
+        ctx.count("evaluations")
+        check_inplace(ctx, {"text": t, "steps": [[(i + 3 * k) % 11, i + k] for k in range(5)]})
+    from hypothesis import strategies as st
+
+    walk = st.builds(lambda t, steps: {"text": t, "steps": steps}, G.tree_text(12), st.lists(st.tuples(st.integers(0, 10), st.integers(0, 40)).map(list), min_size=2, max_size=6))
+    hyp_run(ctx, "in-place", walk, check_inplace, ctx.n(500, 4000))
